@@ -13,23 +13,43 @@ pub const WRITE_BIT: u8 = 0x80;
 #[derive(PartialEq, Eq, Hash, PartialOrd, Ord)]
 pub struct Payload(pub u8);
 
-/// Payload 0 serialises as the unit value (`null` in JSON), like `()` or `Option::None` would:
-/// a live payload whose own serialised form is "nothing" must still come back as a live payload.
+/// The payload's serialised form is deliberately not a plain number: 0 serialises as "nothing"
+/// (`null` in JSON, like `()` or `Option::None`), every other value as a one-entry map with an
+/// integer key and a `u128` value (like a `BTreeMap<u32, u128>` field would). A correct arena
+/// round trip cannot depend on what the payload's own encoding looks like.
 #[cfg(feature = "it-deser")]
 impl serde::Serialize for Payload {
     fn serialize<S: serde::Serializer>(&self, s: S) -> Result<S::Ok, S::Error> {
+        struct Rich(u8);
+        impl serde::Serialize for Rich {
+            fn serialize<S: serde::Serializer>(&self, s: S) -> Result<S::Ok, S::Error> {
+                use serde::ser::SerializeMap;
+                let mut m = s.serialize_map(Some(1))?;
+                m.serialize_entry(&(self.0 as u32), &(self.0 as u128 + 1000))?;
+                m.end()
+            }
+        }
         if self.0 == 0 {
             s.serialize_none()
         } else {
-            s.serialize_some(&self.0)
+            s.serialize_some(&Rich(self.0))
         }
     }
 }
 #[cfg(feature = "it-deser")]
 impl<'de> serde::Deserialize<'de> for Payload {
     fn deserialize<D: serde::Deserializer<'de>>(d: D) -> Result<Self, D::Error> {
-        let v: Option<u8> = Option::deserialize(d)?;
-        Ok(Payload(v.unwrap_or(0)))
+        let v: Option<std::collections::BTreeMap<u32, u128>> = Option::deserialize(d)?;
+        match v {
+            None => Ok(Payload(0)),
+            Some(m) => {
+                let (k, val) = m.into_iter().next().ok_or_else(|| serde::de::Error::custom("empty payload map"))?;
+                if val != k as u128 + 1000 {
+                    return Err(serde::de::Error::custom("payload value does not match its key"));
+                }
+                Ok(Payload(k as u8))
+            }
+        }
     }
 }
 
